@@ -97,8 +97,12 @@ fn shared_map_strategy() -> BoxedStrategy<Case> {
 
 /// the pair of a `SharedMap` case: y's SourceMap is a clone of x's with one setter applied
 fn shared_pair(case: &Case, setter: u8, wrap: u8) -> Option<(BoxSource, BoxSource, bool)> {
+  shared_pair_of(&case.x, setter, wrap)
+}
+
+pub fn shared_pair_of(x: &Spec, setter: u8, wrap: u8) -> Option<(BoxSource, BoxSource, bool)> {
   use rspack_sources::{CachedSource, ConcatSource, RawSource, ReplaceSource, SourceExt, SourceMapSource, WithoutOriginalOptions};
-  let Spec::Sms { text, name, map } = &case.x else { return None };
+  let Spec::Sms { text, name, map } = x else { return None };
   let m1 = crate::build::source_map(map);
   let mut m2 = m1.clone();
   let changed = match SETTERS[setter as usize] {
